@@ -88,7 +88,8 @@ impl Family for Cycles {
                 for (i, t) in case["target"].as_array().cloned().unwrap_or_default().iter().enumerate() {
                     let t = t.as_u64().unwrap_or(0);
                     let target = if t == 0 { "int32".to_owned() } else { format!("L{t}") };
-                    s.push_str(&format!("typealias L{} = {}\n", i + 1, target));
+                    let w = case["w"][i].as_u64().unwrap_or(1);
+                    s.push_str(&format!("typealias L{} = {}\n", i + 1, wrap(w, &target)));
                 }
                 // each alias is also used
                 s.push_str("struct U {\n");
